@@ -56,7 +56,7 @@ class StrictLeg(object):
         def case(draw):
             d = draw(S.dialect)
             rec = draw(S.record(d["style"], min_n=0, max_n=5, empty_items=not d["repeated"]))
-            return {"dialect": d, "rec": rec}
+            return {"dialect": d, "rec": rec, "dot_col": draw(st.integers(0, 19)) == 0, "lower_escapes_before": draw(st.integers(0, 19)) == 0}
 
         return case()
 
@@ -89,6 +89,16 @@ class StrictLeg(object):
         from gffutils.feature import feature_from_line
 
         d, rec = case["dialect"], case["rec"]
+        if case.get("lower_escapes_before"):
+            # text outside the grammar (lower-case escapes) parsed earlier in the process does not change how lines print later
+            feature_from_line("chr1\t.\tgene\t1\t2\t.\t+\t.\tNote=a%3bb%2c%3d%26%25%09c;k=%0a")
+        if case.get("dot_col"):
+            # an attribute column that is exactly '.' is printed back as it came in
+            for tail in ([], rec["extras"]):
+                dl = "\t".join(list(rec["cols"]) + ["."] + list(tail))
+                got = str(feature_from_line(dl, keep_order=True))
+                if got != dl:
+                    return Failure("printed line differs:\n in: %r\nout: %r" % (dl, got), sig={"kind": "bytes", "col9": "."})
         line = tm.render_line(rec, d)
         f = feature_from_line(line, keep_order=True)
         bad = _compare_parse(f, rec, line)
@@ -181,6 +191,10 @@ class SpacesLeg(object):
         if not (a == b) or str(a) != str(b):
             return Failure("space rendering parses differently:\n tab: %r\n  sp: %r" % (str(a), str(b)),
                            sig={"kind": "spaces"})
+        c = feature_from_line(tabline, keep_order=True)
+        if not (c == b) or str(c) != str(b):
+            return Failure("space rendering parsed with strict=False differs from the strict parse of the tab rendering:\n tab: %r\n  sp: %r"
+                           % (str(c), str(b)), sig={"kind": "spaces"})
         if dict(a.attributes.items()) != dict(b.attributes.items()):
             return Failure("space rendering gives different attributes", sig={"kind": "spaces-attrs"})
         if attr:
